@@ -472,6 +472,8 @@ impl Worker {
     fn submit(&self, v: String) -> Result<(), TrySendError<Option<String>>> {
         let res = self.sender.try_send(Some(v));
         if res.is_ok() {
+            #[cfg(cadence_verif)]
+            crate::verif::point("queuing.submit.sent");
             self.stats.incr_submitted();
         }
 
@@ -488,6 +490,8 @@ impl Worker {
                     Err(_) => break,
                 }
             } else {
+                #[cfg(cadence_verif)]
+                crate::verif::point("queuing.run.wait");
                 crossbeam_channel::select! {
                     recv(self.receiver) -> res => match res {
                         Ok(opt) => opt,
@@ -498,6 +502,8 @@ impl Worker {
             };
 
             if let Some(v) = opt {
+                #[cfg(cadence_verif)]
+                crate::verif::point("queuing.run.taken");
                 self.stats.incr_drained();
                 (self.task)(v);
             } else {
@@ -515,7 +521,11 @@ impl Worker {
         // Record the request to stop and wake up the run loop if it is waiting
         // for entries. The wake up channel holds a single message: if it is
         // already full the run loop will be woken up anyway.
+        #[cfg(cadence_verif)]
+        crate::verif::point("queuing.stop.enter");
         self.stopping.store(true, Ordering::Release);
+        #[cfg(cadence_verif)]
+        crate::verif::point("queuing.stop.flagged");
         let _ = self.wake_sender.try_send(());
     }
 
